@@ -50,7 +50,7 @@ Newest(s, p) == Last(s.pubs[p])
 
 (* token carried by the publication of p at time t: the initial value is   *)
 (* published for the composition start and the producer's own start        *)
-Tok(cfg, p, t) == 1000 * p + (IF t < cfg.comps[p].off THEN cfg.comps[p].off ELSE t)
+Tok(cfg, p, t) == cfg.tb * p + (IF t < cfg.comps[p].off THEN cfg.comps[p].off ELSE t)
 
 ---------------------------------------------------------------------------
 (* Delay adapters (DelayFixed / DelayToPull / DelayToPush) *)
@@ -189,8 +189,7 @@ InitPull(cfg, s, cs) ==
        IN InitPull(cfg, IF cfg.comps[c].ip THEN PullAll(cfg, s, c, 1, 0).s ELSE s, Tail(cs))
 
 InitState(cfg) ==
-  LET tc == SetToSeq(TimeComps(cfg))
-  IN InitPull(cfg, InitPush(cfg, State0(cfg), tc), tc)
+  InitPull(cfg, InitPush(cfg, State0(cfg), SetToSeq(TimeComps(cfg))), SetToSeq(Comps(cfg)))
 
 ---------------------------------------------------------------------------
 (* Which producers still lack data for a consumer (C01/C02).  lacking for  *)
